@@ -9,6 +9,7 @@ import contextlib
 import json
 import os
 import signal
+import sys
 import time
 
 try:
@@ -154,6 +155,46 @@ def _load_known():
 
 KNOWN_KEYS = _load_known()      # read-only: recorded genuine defects (never extended at run time)
 KNOWN_HITS = {}                 # fkey -> first record (with realised args) that met it
+
+
+def stub_percent_format():
+    """Environment stub (recorded per harness): `fmt % args` with symbolic arguments returns fmt unformatted instead of realising the
+    arguments. CrossHair's default realises every symbolic int that reaches an error message, which turns one path into one path
+    per integer value; the message text is not the subject of any property."""
+    try:
+        import crosshair.core as core
+        from crosshair.libimpl import builtinslib
+    except Exception:
+        return
+    from crosshair import opcode_intercept as oi
+    cls = oi.DeoptimizedPercentFormattingStr
+    if getattr(cls, '_vf_stub', False):
+        return
+    orig = cls.__mod__
+
+    def percent(self, other):
+        with NoTracing():
+            items = other if type(other) is tuple else (other,)
+            symbolic = any(isinstance(x, builtinslib.SymbolicValue) for x in items)
+        if symbolic:
+            return self.value
+        return orig(self, other)
+    cls.__mod__ = percent
+    cls._vf_stub = True
+    # CPython >= 3.11 compiles literal '%s' % (a, b) into FORMAT_VALUE/BUILD_STRING: stub those conversions as well
+    fsv = oi.FormatStashingValue
+
+    def _stub(name, orig):
+        def conv(self, *a):
+            with NoTracing():
+                symbolic = isinstance(self.value, builtinslib.SymbolicValue)
+            if symbolic:
+                self.formatted = '<sym>'
+                return ''
+            return orig(self, *a)
+        setattr(fsv, name, conv)
+    for name in ('__str__', '__format__', '__repr__'):
+        _stub(name, getattr(fsv, name))
 
 
 def fail(rec, why, **kw):
